@@ -1144,7 +1144,8 @@ def stream(ctx, flavour, quick, monitor):
 # A quadratic 'lin' algorithm shows 14 .. 19 (the by-value vectors of finding F28 did), a cubic 'quad' one 64.
 SCALING_RATIO = {'lin': 10.0, 'quad': 40.0}
 SCALING_CLASS = {'Betweenness': 'quad', 'Closeness': 'quad', 'Spring': 'quad', 'ForceAtlas': 'quad',
-                 'Spectral': 'quad', 'SVD': 'quad', 'GSVD': 'quad', 'PCA': 'quad', 'break_cycles': 'quad'}
+                 'Spectral': 'quad', 'SVD': 'quad', 'GSVD': 'quad', 'PCA': 'quad', 'break_cycles': 'quad',
+                 'HITS': 'quad', 'NNLinker': 'quad'}      # HITS: Lanczos SVD; NNLinker: brute-force similarities of every node with every node, by design
 # not probed: get_cycles (its output is exponential on these families); break_cycles on the directed family (finding F27,
 # exponential: it has its own witnesses)
 SCALING_ALGOS = [a for a in ALL_ALGOS if a not in ('get_cycles',)]
